@@ -96,3 +96,72 @@ Example ex_tracked :
                   Sub 1 6 60; SetTo 1]%Z in
   scheduled s = [(3, 30); (1, 10); (4, 40); (2, 20); (5, 50); (6, 60)] /\ map c_wait (cmps s) = [[]; []; []].
 Proof. vm_compute. split; reflexivity. Qed.
+
+(** ** nobody is lost: every subscriber of an existing comparison is parked on some comparison or has been scheduled *)
+Definition accounted (s : tr) (p : sub) : Prop := In p (scheduled s) \/ exists x, In x (cmps s) /\ In p (c_wait x).
+
+Lemma upd_In_keep {A} (l : list A) i f x : In x l -> (exists y, In y (upd l i f) /\ (y = x \/ exists x0, nth_error l i = Some x0 /\ x = x0 /\ y = f x0)).
+Proof.
+  revert i. induction l as [|z r IH]; intros i H; [destruct H|].
+  destruct i as [|j]; cbn.
+  - destruct H as [->|H].
+    + exists (f x). split; [left; reflexivity|]. right. exists x. auto.
+    + exists x. split; [right; exact H|left; reflexivity].
+  - destruct H as [->|H].
+    + exists x. split; [left; reflexivity|left; reflexivity].
+    + destruct (IH j H) as (y & Hy & Hc). exists y. split; [right; exact Hy|exact Hc].
+Qed.
+
+Lemma upd_In_new {A} (l : list A) i f x : nth_error l i = Some x -> In (f x) (upd l i f).
+Proof.
+  revert i. induction l as [|z r IH]; intros i H; [destruct i; discriminate|].
+  destruct i as [|j]; cbn in *.
+  - inversion H. left. reflexivity.
+  - right. apply IH. exact H.
+Qed.
+
+Lemma step_keeps s o p : accounted s p -> accounted (step s o) p.
+Proof.
+  unfold accounted. intros H. destruct o as [o rhs|c w t|v]; cbn.
+  - destruct H as [H|(x & Hx & Hp)]; [left; exact H|]. right. exists x. rewrite in_app_iff. auto.
+  - destruct (nth_error (cmps s) c) as [x0|] eqn:E; [|exact H].
+    destruct (c_holds (value s) x0); cbn.
+    + destruct H as [H|H]; [left; rewrite in_app_iff; auto|right; exact H].
+    + destruct H as [H|(x & Hx & Hp)]; [left; exact H|]. right.
+      destruct (upd_In_keep (cmps s) c (fun x => {| c_op := c_op x; c_rhs := c_rhs x; c_wait := c_wait x ++ [(w, t)] |}) x Hx)
+        as (y & Hy & [->|(x1 & _ & -> & ->)]).
+      * exists x. auto.
+      * eexists. split; [exact Hy|]. cbn. rewrite in_app_iff. auto.
+  - destruct H as [H|(x & Hx & Hp)]; [left; rewrite in_app_iff; auto|].
+    destruct (c_holds v x) eqn:Hh.
+    + left. rewrite in_app_iff. right. apply in_flat_map. exists x. split; [exact Hx|]. rewrite Hh. exact Hp.
+    + right. exists x. split; [|exact Hp]. apply in_map_iff. exists x. rewrite Hh. auto.
+Qed.
+
+Lemma fold_keeps p : forall r s, accounted s p -> accounted (fold_left step r s) p.
+Proof. induction r as [|o r IH]; intros s K; cbn; [exact K|]. apply IH. apply step_keeps. exact K. Qed.
+
+Definition valid_subs (v : Z) (ops : list op) : list sub :=
+  (fix go (s : tr) (ops : list op) : list sub :=
+     match ops with
+     | [] => []
+     | o :: r => (match o with
+                  | Sub c w t => match nth_error (cmps s) c with Some _ => [(w, t)] | None => [] end
+                  | _ => []
+                  end) ++ go (step s o) r
+     end) (init v) ops.
+
+Theorem nobody_is_lost v ops p : In p (valid_subs v ops) -> accounted (run v ops) p.
+Proof.
+  unfold run, valid_subs. generalize (init v) as s.
+  induction ops as [|o r IH]; intros s H; cbn in *; [destruct H|].
+  apply in_app_iff in H. destruct H as [H|H]; [|apply IH; exact H].
+  assert (K : accounted (step s o) p).
+  { destruct o as [o rhs|c w t|v0]; cbn in H; try contradiction.
+    destruct (nth_error (cmps s) c) as [x0|] eqn:E; cbn in H; [|contradiction].
+    destruct H as [<-|[]]. unfold accounted. cbn. rewrite E.
+    destruct (c_holds (value s) x0); cbn.
+    - left. rewrite in_app_iff. cbn. auto.
+    - right. eexists. split; [eapply upd_In_new; exact E|]. cbn. rewrite in_app_iff. cbn. auto. }
+  apply fold_keeps. exact K.
+Qed.
